@@ -1,6 +1,6 @@
 (** Proofs about the page distributor and the work-group split (C18). *)
 From Coq Require Import List NArith ZArith Bool Lia Arith.
-From Coq Require Import ZifyN ZifyNat ZifyBool.
+From Coq Require Import ZifyN ZifyNat ZifyBool FinFun.
 Import ListNotations.
 From VDrv Require Import Distribute.
 
@@ -417,6 +417,108 @@ Example split_uint32_overflow_quirk :
 Proof. split; [reflexivity|]. eexists; split; [vm_compute; reflexivity|vm_compute; reflexivity]. Qed.
 
 End SplitP.
+
+(** * Per-GPU slices of the benchmarks *)
+Module BenchP.
+Import Pages PagesP Bench.
+Open Scope N_scope.
+
+Lemma cells_nil a : cells (a, 0) = [].
+Proof. reflexivity. Qed.
+
+(** a chain of boundaries f 0 <= f 1 <= ... <= f k cuts [f 0, f k) into the
+    consecutive slices [f i, f (i+1)) *)
+Lemma chain_tiles (f : N -> N) k :
+  (forall i, i < k -> f i <= f (i + 1)) ->
+  f 0 <= f k /\
+  flat_map cells (map (fun i => (f i, f (i + 1) - f i)) (upto k)) =
+  map (fun j => f 0 + j) (upto (f k - f 0)).
+Proof.
+  induction k using N.peano_ind; intros Hm.
+  - split; [lia|]. rewrite N.sub_diag. reflexivity.
+  - destruct IHk as [H0 IH]; [intros i Hi; apply Hm; lia|].
+    assert (Hk : f k <= f (k + 1)) by (apply Hm; lia).
+    rewrite <- N.add_1_r in *. split; [lia|].
+    rewrite N.add_1_r, upto_succ, map_app, flat_map_app, IH. cbn [map flat_map].
+    rewrite app_nil_r. unfold cells; cbn [fst snd].
+    replace (f (N.succ k) - f 0) with ((f k - f 0) + (f (k + 1) - f k))
+      by (rewrite <- N.add_1_r; lia).
+    rewrite upto_add, map_app, map_map. f_equal. apply map_ext. intros j. lia.
+Qed.
+
+Lemma bal_mono n g i : 1 <= g -> bal_first n g i <= bal_first n g (i + 1).
+Proof. intros Hg. unfold bal_first. apply N.div_le_mono; lia. Qed.
+
+Lemma bal_ends n g : 1 <= g -> bal_first n g 0 = 0 /\ bal_first n g g = n.
+Proof.
+  intros Hg. unfold bal_first. split; [reflexivity|]. rewrite N.mul_comm. apply N.div_mul; lia.
+Qed.
+
+(** fir / relu: the slices of the g GPUs are consecutive, start at 0 and end
+    at n: every item belongs to exactly one GPU, for every n >= 0 and g >= 1
+    (also n < g, where some slices are empty). *)
+Lemma balanced_partition_proof n g :
+  1 <= g ->
+  flat_map cells (slices (bal_slice n g) g) = upto n /\
+  (forall i, i < g -> fst (bal_slice n g i) + snd (bal_slice n g i) = fst (bal_slice n g (i + 1))) /\
+  fst (bal_slice n g 0) = 0 /\ fst (bal_slice n g g) = n.
+Proof.
+  intros Hg. destruct (bal_ends n g Hg) as [E0 Eg].
+  destruct (chain_tiles (bal_first n g) g) as [_ H]; [intros; now apply bal_mono|].
+  split; [|split; [|split]].
+  - unfold slices, bal_slice. rewrite H, E0, Eg, N.sub_0_r.
+    rewrite <- (map_id (upto n)) at 2. apply map_ext. intros; lia.
+  - intros i Hi. unfold bal_slice; cbn [fst snd]. pose proof (bal_mono n g i Hg). lia.
+  - exact E0.
+  - exact Eg.
+Qed.
+
+(** matrixtranspose: boundaries min(n, per*i) with per = ceil(n/g) *)
+Definition ceil_bound (n g i : N) : N := N.min n (ceil_per n g * i).
+
+Lemma ceil_covers n g : 1 <= g -> n <= ceil_per n g * g.
+Proof.
+  intros Hg. unfold ceil_per.
+  pose proof (N.div_mod (n + g - 1) g ltac:(lia)) as Hd.
+  pose proof (N.mod_lt (n + g - 1) g ltac:(lia)) as Hm. nia.
+Qed.
+
+Lemma ceil_cells n g i :
+  cells (ceil_slice n g i) = cells (ceil_bound n g i, ceil_bound n g (i + 1) - ceil_bound n g i).
+Proof.
+  unfold ceil_slice, ceil_bound. set (per := ceil_per n g).
+  destruct (n <=? per * i) eqn:E.
+  - assert (per * i <= per * (i + 1)) by nia.
+    rewrite !N.min_l by lia. rewrite N.sub_diag. reflexivity.
+  - assert (Hlt : per * i < n) by lia. rewrite (N.min_r n (per * i)) by lia.
+    f_equal. f_equal. destruct (N.le_gt_cases n (per * (i + 1))) as [H|H].
+    + rewrite (N.min_l n) by lia. rewrite N.min_r; nia.
+    + rewrite (N.min_r n) by lia. rewrite N.min_l; nia.
+Qed.
+
+Lemma ceil_partition_proof n g :
+  1 <= g -> flat_map cells (slices (ceil_slice n g) g) = upto n.
+Proof.
+  intros Hg. unfold slices.
+  rewrite flat_map_concat_map, map_map, <- flat_map_concat_map.
+  rewrite (flat_map_ext _ (fun i => cells (ceil_bound n g i, ceil_bound n g (i + 1) - ceil_bound n g i)))
+    by (intros; apply ceil_cells).
+  rewrite flat_map_concat_map, <- (map_map (fun i => (ceil_bound n g i, ceil_bound n g (i + 1) - ceil_bound n g i)) cells),
+    <- flat_map_concat_map.
+  destruct (chain_tiles (ceil_bound n g) g) as [_ H].
+  { intros i _. unfold ceil_bound. apply N.min_le_compat_l. nia. }
+  rewrite H. unfold ceil_bound. rewrite N.mul_0_r, N.min_0_r, N.sub_0_r.
+  rewrite N.min_l by (now apply ceil_covers).
+  rewrite <- (map_id (upto n)) at 2. apply map_ext. intros; lia.
+Qed.
+
+(** covering in order means exactly once *)
+Lemma upto_nodup n : NoDup (upto n).
+Proof.
+  unfold upto. apply FinFun.Injective_map_NoDup; [intros a b H; lia|apply seq_NoDup].
+Qed.
+
+End BenchP.
 
 Print Assumptions PagesP.distribute_covers_once_proof.
 Print Assumptions SplitP.gpu_split_partition_proof.
